@@ -144,3 +144,11 @@ Definition body_consistent (e : env) : Prop :=
 
 (* the body a request carries *)
 Definition body_of (e : env) : bytes := if is_body_readable e then e_input e else [].
+
+(* the environ keys a WSGI server produces for request headers: HTTP_ + [A-Z0-9_]+ (other than
+   the two names that CGI stores without the prefix), and CONTENT_TYPE / CONTENT_LENGTH *)
+Definition cgi_char (c : N) : bool := is_upper c || is_digit c || (c =? 95).
+Definition cgi_header_key (k : str) : Prop :=
+  k = k_CT \/ k = k_CL \/
+  exists s, k = p_HTTP_ ++ s /\ s <> [] /\ Forall (fun c => cgi_char c = true) s /\
+            s <> A "CONTENT_TYPE" /\ s <> A "CONTENT_LENGTH".
